@@ -221,22 +221,10 @@ def _r1(ck: Checker, prog: Program):
     else:
         ck.violation("C10.R1", bf.qualname, "filter design", "butter() is not designed for this series' sampling rate with sos output", loc=bf.loc())
     # component-wise methods visit all three components
-    sr = prog.cls("SeismicRecording3C")
+    from .common import check_componentwise
     for name in ("butterworth_filter", "detrend", "trim", "window"):
-        m = sr.methods[name]
-        loops_m = [st for st in m.node.body if isinstance(st, ast.For)]
-        ok = len(loops_m) == 1 and isinstance(loops_m[0].iter, (ast.List, ast.Tuple)) \
-            and sorted(e.value for e in loops_m[0].iter.elts if isinstance(e, ast.Constant)) == ["ew", "ns", "vt"] \
-            and len(calls_in(loops_m[0], name)) == 1 and not any(isinstance(x, (ast.Break, ast.Continue, ast.If)) for x in ast.walk(loops_m[0]))
-        if ok:
-            c = calls_in(loops_m[0], name)[0]
-            # parameters forwarded by name
-            b = bind_call(c, prog.cls("TimeSeries").methods[name].params, skip_first=True)
-            ok = all(isinstance(v, ast.Name) and v.id == k for k, v in b.items()) and len(b) == len(m.params) - 1
-        if ok:
-            ck.ok("C10.R1", m.qualname, f"{name} applied to ns, ew, vt with the caller's arguments")
-        else:
-            ck.violation("C10.R1", m.qualname, f"component-wise {name}", f"{name} is not applied to all three components with the caller's arguments", loc=m.loc())
+        ck.guard(check_componentwise, ck, prog, "C10.R1", name)
+
 
 
 def _r2(ck: Checker, prog: Program):
